@@ -38,6 +38,12 @@ CHECKS.update({
         note='Trusted: symnp engine, z3, the index-map oracle in harness/c16.py.',
         ref='DESIGN.md section 4 C16'),
 })
+CHECKS.update({
+    'C04': dict(
+        text='Expression trees over uninterpreted leaves (UFOp: nonlinear, entries A_i(x) with A_i uninterpreted functions, implemented out-of-place and in-place; symbolic matrix operator; uninterpreted and linear functionals) are built with the real Operator/Functional overloads (+ - unary- * @ / ** scalar/vector left/right multiples, operator+vector, operator+scalar, reflected forms) and evaluated by the real expression classes out-of-place, in-place and aliased; z3 decides equality with a reference interpreter of the documented table modulo congruence, i.e. for every leaf behaviour, every point, scalar and vector; domain, range and soundness of the linearity flag are checked concretely per path. Trees: all of depth <= 1, seeded samples of depth 2 (quick 260+120, thorough 3000+1000) and depth 3 (thorough).',
+        note='Trusted: symnp engine, z3 (QF_UFNRA), the 60-line reference interpreter in harness/c04.py. Leaves are deterministic functions of their argument.',
+        ref='DESIGN.md section 4 C04'),
+})
 NOT_YET = {}
 
 
